@@ -30,36 +30,18 @@ theorem makeSegment_auto (data : List Nat) (enc : String) :
     ∃ s, Model.makeSegment data none enc = .ok s ∧ s.mode = Spec.autoMode data := by
   exact Proofs.Modes.makeSegment_auto data enc
 
-/-- **requested mode** — ORIGINAL STATEMENT, FALSE as given (kept as a `def … : Prop`, not a theorem).
-    Counterexample: `data = []`, `m = 8` (or `m = 13`): `Spec.representable 8 [] = false`, but
-    `Model.makeSegment [] (some 8) enc = .ok ⟨[], 0, 8, none⟩` (see `makeSegment_requested_counterexample`):
-    `find_mode(b"")` is BYTE (4), `8 < 4` is false, the length is even and there is no pair to validate. -/
-def makeSegment_requested_statement : Prop :=
-  ∀ (data : List Nat) (m : Nat) (enc : String), m ∈ [1, 2, 4, 8, 13] →
-    (Spec.representable m data = true → ∃ s, Model.makeSegment data (some m) enc = .ok s ∧ s.mode = m)
-    ∧ (Spec.representable m data = false → Model.makeSegment data (some m) enc = .error Model.PyErr.valueError)
-
-/-- the original statement is refuted by empty content with kanji requested -/
-theorem makeSegment_requested_counterexample : ¬ makeSegment_requested_statement := by
-  intro h
-  have h8 := (h [] 8 "" (by decide)).2 rfl
-  rw [(Proofs.Modes.makeSegment_empty_double "").1] at h8
-  cases h8
-
-/-- what the model does in the excluded case -/
-theorem makeSegment_empty_double (enc : String) :
-    Model.makeSegment [] (some 8) enc = .ok ⟨[], 0, 8, none⟩ ∧ Model.makeSegment [] (some 13) enc = .ok ⟨[], 0, 13, none⟩
-    ∧ Spec.representable 8 [] = false ∧ Spec.representable 13 [] = false :=
-  Proofs.Modes.makeSegment_empty_double enc
-
-/-- **requested mode** (strongest true variant): honoured exactly when the content is representable in it,
-    refused with ValueError otherwise (m ∈ {numeric, alphanumeric, byte, kanji, hanzi}), for all
-    content except the empty string with kanji / hanzi requested -/
-theorem makeSegment_requested_partial (data : List Nat) (m : Nat) (enc : String) (hm : m ∈ [1, 2, 4, 8, 13])
-    (hne : data ≠ [] ∨ (m ≠ 8 ∧ m ≠ 13)) :
+/-- **requested mode**: honoured exactly when the content is representable in it, refused with
+    ValueError otherwise (m ∈ {numeric, alphanumeric, byte, kanji, hanzi}) -/
+theorem makeSegment_requested (data : List Nat) (m : Nat) (enc : String) (hm : m ∈ [1, 2, 4, 8, 13]) :
     (Spec.representable m data = true → ∃ s, Model.makeSegment data (some m) enc = .ok s ∧ s.mode = m)
     ∧ (Spec.representable m data = false → Model.makeSegment data (some m) enc = .error Model.PyErr.valueError) := by
-  exact Proofs.Modes.makeSegment_requested_partial data m enc hm hne
+  exact Proofs.Modes.makeSegment_requested data m enc hm
+
+/-- empty content with kanji / hanzi requested gives an empty segment (vacuously representable) -/
+theorem makeSegment_empty_double (enc : String) :
+    Model.makeSegment [] (some 8) enc = .ok ⟨[], 0, 8, none⟩ ∧ Model.makeSegment [] (some 13) enc = .ok ⟨[], 0, 13, none⟩
+    ∧ Spec.representable 8 [] = true ∧ Spec.representable 13 [] = true :=
+  Proofs.Modes.makeSegment_empty_double enc
 
 /-- character count of a segment -/
 theorem makeSegment_charCount (data : List Nat) (mode : Option Nat) (enc : String) (s : Model.Segment)
@@ -80,8 +62,7 @@ end Props.C07
 #print axioms Props.C07.findMode_eq_autoMode
 #print axioms Props.C07.auto_never_hanzi
 #print axioms Props.C07.makeSegment_auto
-#print axioms Props.C07.makeSegment_requested_partial
-#print axioms Props.C07.makeSegment_requested_counterexample
+#print axioms Props.C07.makeSegment_requested
 #print axioms Props.C07.makeSegment_empty_double
 #print axioms Props.C07.makeSegment_charCount
 #print axioms Props.C07.mode_supported_iff_cci
